@@ -182,6 +182,24 @@ theorem c18_cached_answers (P : Params) (hnc : P.inner.NoCached) (h2 : RootHyp2 
   have := c10_root_history_full P.id P.inner h2 hT hL _ σ h0 hc (c, x) (by rw [hlin]; exact hin)
   exact this
 
+/-- the same from *any* store a sequential history can leave behind (`RootInv2`: every entry of the wrapper absent or one of the two
+fills) — a concurrent phase that follows earlier sequential or concurrent use: every answer is the fresh stream of the cache-free
+tree, the replay of one of the two fills, one of the two fills itself, or the wrapped source's text / size (`AnsOK3`) -/
+theorem c18_cached_answers_any_start (P : Params) (hnc : P.inner.NoCached) (h2 : RootHyp2 P.id P.inner) (r : RState) (hr : r.Inv)
+    (σ : Store) (hσ : RootInv2 P.id P.inner σ) (progs : List (List Op)) (sched : List Nat) :
+    ∀ t ∈ (run P (initSys r σ progs) sched).ths, ∀ c x, Ans.call c x ∈ t.outs → AnsOK3 P.inner c x := by
+  intro t ht c x hx
+  obtain ⟨hlin, hmem⟩ := c18_linearizable P hnc r hr σ progs sched
+  have hin := hmem t ht c x hx
+  exact runRoot3_answers P.id P.inner h2 _ σ hσ (c, x) (by rw [hlin]; exact hin)
+
+/-- … and the invariant survives the phase: the store it leaves behind is again one a sequential history could have produced -/
+theorem c18_store_after_phase (P : Params) (hnc : P.inner.NoCached) (r : RState) (hr : r.Inv) (σ : Store) (progs : List (List Op))
+    (sched : List Nat) :
+    (run P (initSys r σ progs) sched).sh.σ
+      = (runRoot3 P.id P.inner ((run P (initSys r σ progs) sched).sh.log.map Prod.fst) σ).2 := by
+  rw [(c18_linearizable P hnc r hr σ progs sched).1]
+
 /-- **all concurrent `map()` calls with one column setting get the same map**: whichever threads call `map(columns)` on the shared
 CachedSource or its clones, whenever, under every interleaving (also racing with `stream_chunks`, which may be the one to fill the
 entry), any two of the answers are equal — the value side of "the cached value is never replaced" and of "repeating a call never
